@@ -71,6 +71,12 @@ func (r *RTPBuffer) Add(packet *RetainablePacket) {
 			r.packets[idx] = nil
 		}
 		r.highestAdded = seq
+	} else if r.highestAdded-seq >= r.size {
+		// Late packet that is already outside of the window: Get would never
+		// return it, and storing it would evict a packet that is still inside.
+		packet.Release()
+
+		return
 	}
 
 	idx := seq % r.size
